@@ -147,9 +147,17 @@ Definition find_slot (nd : node) (r : rreq) : node * fres :=
 
 (* ------------------------------------------- Node.allocate_slot(_check=True) *)
 
-(* `for ro in cores: assert ro.index < len(self.cores); ro_available = BUSY -
-   self.cores[ro.index].occupation; assert ro_available >= ro.occupation` *)
-Fixpoint check_list (cs : list (option Z)) (l : list (Z * Z)) : option err :=
+(* `requested = dict(); for ro in cores: assert ro.index < len(self.cores); ro_available = BUSY -
+   self.cores[ro.index].occupation - requested.get(ro.index, 0); assert ro_available >= ro.occupation;
+   requested[ro.index] = requested.get(ro.index, 0) + ro.occupation` -- `seen` is what the slot itself has
+   asked of each index so far (keyed by the index as written, also a negative one) *)
+Fixpoint seen_at (j : Z) (l : list (Z * Z)) : Z :=
+  match l with
+  | [] => 0
+  | (i, d) :: l' => (if i =? j then d else 0) + seen_at j l'
+  end.
+
+Fixpoint check_list_from (seen : list (Z * Z)) (cs : list (option Z)) (l : list (Z * Z)) : option err :=
   match l with
   | [] => None
   | (i, d) :: l' =>
@@ -157,11 +165,14 @@ Fixpoint check_list (cs : list (option Z)) (l : list (Z * Z)) : option err :=
       match py_pos cs i with
       | None => Some EIndex
       | Some k => match nth_error cs k with
-                  | Some (Some o) => if BUSY - o >=? d then check_list cs l' else Some EAssert
+                  | Some (Some o) => if BUSY - o - seen_at i seen >=? d then check_list_from ((i, d) :: seen) cs l'
+                                     else Some EAssert
                   | _ => Some EType                                   (* BUSY - None *)
                   end
       end
   end.
+
+Definition check_list (cs : list (option Z)) (l : list (Z * Z)) : option err := check_list_from [] cs l.
 
 Definition check_amount (have : option Z) (want : Z) : option err :=
   if want =? 0 then None else
